@@ -39,13 +39,26 @@ CU = 'utils.courier_utils'
 
 
 def run(ctx: Ctx):
-  for r in (r1, r2, r3, r4, r5, r6, r7, r8):
+  for r in (r1, r2, r3, r4, r5, r6, r7, r8, r11):
     ctx.guard(r)
   from mlmverif.props import c15
+  from mlmverif.props import c05
+  from mlmverif.props._queue import model as qmodel
+  ctx.include('R-C06-10', '"non-retriable task errors surface to the caller as'
+              ' errors, never as silently missing results": on the worker the'
+              ' failure of the shard\'s generator is stored BEFORE the end of'
+              ' enqueueing is announced (R-C05-2) and wakes every waiter'
+              ' (R-C05-1)', _c05_shared, qmodel(ctx), min_instances=5)
   ctx.include('R-C06-9', 'a worker that lost its generator (restarted mid-shard)'
               ' answers with a RETRIABLE error, so the shard is re-queued'
               ' instead of failing the run (R-C15-4 terminal/uninitialised'
               ' answers)', c15.r4, min_instances=3)
+
+
+def _c05_shared(sub, m):
+  from mlmverif.props import c05
+  sub.guard(c05.r1, m)
+  sub.guard(c05.r2, m)
 
 
 def _nested(fi: FuncInfo, name: str) -> FuncInfo:
@@ -634,12 +647,72 @@ def r8(ctx: Ctx):
   ctx.floor(rule, 1)
 
 
+def r11(ctx: Ctx):
+  rule = 'R-C06-11'
+  ctx.rule(rule, '"every shard\'s aggregation state is merged exactly once": a'
+           ' task that has completed is never retried — in the loops that'
+           ' inspect the running tasks, every retry disposition'
+           ' (<list>.append(task.set(_exc=None))) is dominated by the test'
+           ' `task.done()`: a worker that left AFTER its shard finished must'
+           ' not cause the finished shard to be re-run and merged twice')
+  repo = ctx.repo
+  n = 0
+  for fi in (_nested(repo.func(CW, 'WorkerPool.iterate'), 'iterate'), repo.func(ORCH, 'as_completed')):
+    g = cfgm.cfg_of(fi.node)
+    for lp in _task_loops(fi, g):
+      tv = lp.ast.target.id
+      def is_done_call(e, tv=tv):
+        return isinstance(e, ast.Call) and isinstance(e.func, ast.Attribute) and e.func.attr == 'done' and (
+            unparse(e.func.value) == tv)
+
+      def knowledge_edge(nd, lab):
+        """Edges on which the completion status of the task is known."""
+        if nd.kind != 'cond':
+          return False
+        t = nd.ast
+        if is_done_call(t):
+          return lab in ('true', 'false')
+        if isinstance(t, ast.UnaryOp) and isinstance(t.op, ast.Not) and is_done_call(t.operand):
+          return lab in ('true', 'false')
+        if isinstance(t, ast.BoolOp) and isinstance(t.op, ast.And) and lab == 'true':
+          return any(is_done_call(v) or (isinstance(v, ast.UnaryOp) and isinstance(v.op, ast.Not)
+                                         and is_done_call(v.operand)) for v in t.values)
+        if isinstance(t, ast.BoolOp) and isinstance(t.op, ast.Or) and lab == 'false':
+          return any(is_done_call(v) or (isinstance(v, ast.UnaryOp) and isinstance(v.op, ast.Not)
+                                         and is_done_call(v.operand)) for v in t.values)
+        return False
+
+      retries = [nd for nd in g.reachable([lp], edge_ok=cfgm.only_normal)
+                 if (_disposition(nd, tv) or '').startswith('retry')]
+      for r_ in retries:
+        n += 1
+        reach = g.reachable([lp], edge_ok=lambda a, b, lab: lab not in ('exc', 'close')
+                            and not knowledge_edge(a, lab))
+        if r_ in reach:
+          ctx.fail(rule, fi, f'{fi.qualname}: retry of {tv} only after {tv}.done() was consulted',
+                   f'`{r_.text()[:60]}` can be reached without testing `{tv}.done()`:'
+                   ' a task that already delivered its batches and its aggregation'
+                   ' state is queued again when its worker has gone away since, so'
+                   ' the shard is processed and merged a second time', node=r_.ast)
+        else:
+          ctx.ok(rule, fi, f'{fi.qualname}: `{r_.text()[:40]}` only after {tv}.done()', r_.ast)
+  ctx.floor(rule, 2, n)
+
+
 from mlmverif.selfcheck import B, OK  # noqa: E402
 
 _W = 'chainables/courier_worker.py'
 _O = 'chainables/orchestrate.py'
 _U = 'utils/courier_utils.py'
 VARIANTS = [
+    B('liveness-before-completion', _W,
+      '          if task.done():\n            if exc := task.exception():',
+      '          if not task.is_alive and not task.done():\n            timeout_tasks.append(task.set(_exc=None))\n          elif not task.is_alive:\n            timeout_tasks.append(task.set(_exc=None))\n          elif task.done():\n            if exc := task.exception():',
+      'R-C06-11'),
+    B('failure-stored-after-stop', 'utils/iter_utils.py',
+      '        self._exception = e\n        self._stop_enqueue()\n        raise e\n\n\nclass _ThreadSafeIterator',
+      '        self._stop_enqueue()\n        self._exception = e\n        raise e\n\n\nclass _ThreadSafeIterator',
+      'R-C06-10'),
     B('placeholder-cancel-outside-finally', _U,
       '      raise e\n    finally:\n      generator_state.cancel()',
       '      raise e\n    generator_state.cancel()', 'R-C06-8'),
